@@ -458,6 +458,17 @@ func fixLength(isResponse bool, status int, requestMethod string, header Header,
 	}
 
 	// Logic based on Content-Length
+	// A message with several Content-Length values that differ has no defined
+	// length (RFC 7230, section 3.3.2): reject it instead of picking one.
+	if cls := header["Content-Length"]; len(cls) > 1 {
+		first := strings.TrimSpace(cls[0])
+		for _, c := range cls[1:] {
+			if strings.TrimSpace(c) != first {
+				return -1, &badStringError{"conflicting Content-Length", strings.Join(cls, ", ")}
+			}
+		}
+		header["Content-Length"] = []string{first}
+	}
 	cl := strings.TrimSpace(header.GetDirect("Content-Length"))
 	if cl != "" {
 		n, err := parseContentLength(cl)
@@ -692,6 +703,12 @@ func parseContentLength(cl string) (int64, error) {
 	cl = strings.TrimSpace(cl)
 	if cl == "" {
 		return -1, nil
+	}
+	// Content-Length = 1*DIGIT: no sign, no list, no other notation
+	for i := 0; i < len(cl); i++ {
+		if cl[i] < '0' || cl[i] > '9' {
+			return 0, &badStringError{"bad Content-Length", cl}
+		}
 	}
 	n, err := strconv.ParseInt(cl, 10, 64)
 	if err != nil || n < 0 {
